@@ -43,6 +43,15 @@ func headerVariants() []headerVariant {
 		{"application/activity+json; charset=utf-8", "ap", true, false},
 		{"application/activity+json, application/ld+json;q=0.9", "ap", true, true},
 		{`application/ld+json; charset=utf-8; profile="https://www.w3.org/ns/activitystreams"`, "unspecified", true, false},
+		// other media types whose text contains an ActivityStreams one
+		{"application/activity+json-seq", "not", true, false},
+		{"application/activity+jsonp", "not", true, false},
+		{"x-application/activity+json", "not", true, false},
+		{`text/plain; note="application/activity+json"`, "not", true, false},
+		{"multipart/form-data; boundary=application/activity+json", "not", true, false},
+		{"application/ld+json; profile=https://www.w3.org/ns/activitystreams-not", "not", true, false},
+		{`application/ld+json; profile="https://example.com/other"; x="application/ld+json; profile=https://www.w3.org/ns/activitystreams"`, "not", true, false},
+		{"text/html, application/activity+json-seq;q=0.5", "not", true, true},
 	}
 }
 
